@@ -346,6 +346,11 @@ impl TransportVisitor for VRaw {
                 for l in 0..TX_LENS.len() {
                     menu.push((0, l, 0));
                 }
+            } else if txs.len() + if w.dev.borrow().driver_features & F_INDIRECT != 0 { 1 } else { 2 } <= NET_QS && txs.iter().all(|t| !t.2) {
+                // A blocking send while non-blocking transmissions are in flight and held by the
+                // device (none completed): there is room (two descriptors, or one slot with indirect
+                // descriptors), so it goes through like any other.
+                menu.push((0, 1, 0));
             }
             // Up to a queue-full of transmissions in flight (one descriptor each).
             if txs.len() < 2 {
